@@ -63,10 +63,21 @@ func c11(env *core.Env) {
 		h.lifetimes = [][]int{{0}, {1, 2}, {300}}[c.Int("lifetimes", 3)]
 		h.tokenField = []string{"token", "access_token", "both"}[c.Int("tokenfield", 3)]
 		h.giveRefresh = c.Bool("giverefresh", 1, 3)
-		h.failure = []string{"", "", "", "status-500", "status-403", "status-404", "bad-json", "no-token"}[c.Int("tokenfailure", 8)]
+		h.failure = []string{"", "", "", "status-500", "status-403", "status-404", "bad-json", "no-token", "redirect"}[c.Int("tokenfailure", 9)]
+		if h.failure == "redirect" {
+			h.failure = []string{"redirect-301", "redirect-302", "redirect-303", "redirect-307", "redirect-308"}[c.Int("redirect.status", 5)]
+			// to a host nobody named, to the same host name on another port, to a
+			// subdomain of the realm, or to the other registry's realm host
+			h.redirectTo = []string{"http://other.example/token", "http://" + h.realmHost + ":8443/token", "http://sso." + h.realmHost + "/token", "other-realm"}[c.Int("redirect.to", 4)]
+		}
 		return h
 	}
 	hosts := []*regHost{mk(1), mk(2)}
+	for i, h := range hosts {
+		if h.redirectTo == "other-realm" {
+			h.redirectTo = "http://" + hosts[1-i].realmHost + "/token"
+		}
+	}
 	w := newAuthWorld(env, hosts)
 	failFor := map[string]bool{}
 	if c.Bool("configfail", 1, 8) {
